@@ -43,8 +43,8 @@
 (*  A failure of fma_1ulp with |x*y| >= 2^emax whose result is what the     *)
 (*  documented fallback gives (fl(x*y) + z rounded once, within 1 ulp) is  *)
 (*  named fma_1ulp_prodtop, otherwise one with |x*y+z| >= 2^emax whose     *)
-(*  result is the infinity that fl(x*y) + z overflows to is named          *)
-(*  fma_1ulp_restop, so that these two known behaviours are keyed apart    *)
+(*  result is not finite (an internal overflow: inf, or NaN from inf-inf)  *)
+(*  is named fma_1ulp_restop, so that these known behaviours are keyed     *)
 (*  from every other failure of the clause - including other failures in   *)
 (*  the same corners.                                                      *)
 (***************************************************************************)
@@ -128,7 +128,10 @@ NearOverflow(f, x, y, z) ==                           \* L3
 FallbackSum(f, x, y, z) == RN(f, DAdd(Val(f, RN(f, DMul(Val(f, x), Val(f, y)))), Val(f, z)))
 FallbackLike(f, x, y, z, r) == LET s == FallbackSum(f, x, y, z)
                                IN  IF IsFinite(f, s) THEN WithinR(f, r, s, 1) ELSE r = s
-FallbackInf(f, x, y, z, r) == LET s == FallbackSum(f, x, y, z) IN ~IsFinite(f, s) /\ r = s
+\* ... and in the result corner (|x*y| < 2^emax <= |x*y + z|) the known behaviour is an overflow inside the
+\* algorithm (fl(x*y) + z, or an intermediate of the compensated sum, exceeds the range): the result is not finite
+\* (an infinity, or the NaN of inf - inf); a wrong FINITE result there is a plain fma_1ulp
+FallbackInf(f, x, y, z, r) == ~IsFinite(f, r)
 \* fo: the fix_overflow option of the variant that produced r; dom = FmaDomain(f, x, y, z) and
 \* rn = RN(f, FMAExact(f, x, y, z)) are passed in so that a caller judging many variants on the
 \* same operands evaluates them once
